@@ -1,3 +1,4 @@
+import PgsVerif.Proofs.Hydrate
 import PgsVerif.Model.AstSem2
 /-!
 # C09 — presence, oneof and syntax semantics agree with protobuf's own
@@ -126,5 +127,88 @@ private def demoFile : FileD := ⟨"a.proto", "p", "proto3", [], [], [], .nil, [
 private def demoField : FieldD := ⟨"x", 1, 1, 9, "", some 0, true, ""⟩
 example : FieldOK demoFile demoField := ⟨by decide, by decide, by decide, by decide, by decide⟩
 example : pgsPresence demoFile demoField = true := by decide
+
+end Pgs.AST
+
+/-! ### the listings partition the fields -/
+namespace Pgs.AST
+
+theorem mem_oneofMembers (fi : Nat) (here : List Nat) (fields : List FieldD) (o : Nat) (r : Ref) :
+    r ∈ oneofMembers fi here fields o ↔ ∃ q ∈ idx fields, q.2.oneofIndex = some o ∧ r = ⟨fi, here ++ [2, q.1]⟩ := by
+  simp only [oneofMembers, List.mem_filterMap]
+  constructor
+  · rintro ⟨⟨i, f⟩, hq, h⟩
+    by_cases hc : f.oneofIndex = some o
+    · simp only [hc, if_true, Option.some.injEq] at h
+      exact ⟨(i, f), hq, hc, h.symm⟩
+    · simp [hc] at h
+  · rintro ⟨⟨i, f⟩, hq, hc, rfl⟩
+    simp only at hc
+    exact ⟨(i, f), hq, by simp [hc]⟩
+
+/-- **C09 (partition)**: with every `oneof_index` in range, each field of a message is listed either
+    among the oneof fields (iff it has a `oneof_index`) or among the non-oneof fields (iff it has
+    none) — never both, never neither; and a oneof field is listed among the synthetic-oneof fields
+    iff its oneof is synthetic, while the real oneofs are exactly the non-synthetic ones. -/
+theorem C09_partition (f : FileD) (r : Ref) (h : MsgHead)
+    (hwf : ∀ fd ∈ h.fields, ∀ o, fd.oneofIndex = some o → o < h.oneofs.length) :
+    ∀ q ∈ idx h.fields,
+      let fr : Ref := ⟨r.file, r.path ++ [2, q.1]⟩
+      let oneofFields := ((List.range h.oneofs.length).map (oneofMembers r.file r.path h.fields)).flatten
+      let nonOneof := (idx h.fields).filterMap (fun (x : Nat × FieldD) => if x.2.oneofIndex.isNone then some (⟨r.file, r.path ++ [2, x.1]⟩ : Ref) else none)
+      let synth := (((List.range h.oneofs.length).filter (pgsSynthetic f h)).map (oneofMembers r.file r.path h.fields)).flatten
+      (fr ∈ oneofFields ↔ q.2.oneofIndex.isSome = true) ∧
+      (fr ∈ nonOneof ↔ q.2.oneofIndex.isNone = true) ∧
+      (fr ∈ synth ↔ ∃ o, q.2.oneofIndex = some o ∧ pgsSynthetic f h o = true) := by
+  intro q hq
+  obtain ⟨i, fd⟩ := q
+  have hfd : fd ∈ h.fields := by
+    have := idx_mem h.fields i fd hq
+    exact List.mem_of_getElem? this
+  -- a reference determines the index
+  have inj : ∀ (q' : Nat × FieldD), q' ∈ idx h.fields →
+      (⟨r.file, r.path ++ [2, i]⟩ : Ref) = ⟨r.file, r.path ++ [2, q'.1]⟩ → q' = (i, fd) := by
+    intro q' hq' e
+    have : i = q'.1 := by
+      have := congrArg Ref.path e
+      simpa using this
+    obtain ⟨i', fd'⟩ := q'
+    simp only at this; subst this
+    have a := idx_mem h.fields i fd hq
+    have b := idx_mem h.fields i fd' hq'
+    rw [a] at b; cases b; rfl
+  refine ⟨?_, ?_, ?_⟩
+  · simp only [List.mem_flatten, List.mem_map, List.mem_range]
+    constructor
+    · rintro ⟨l, ⟨o, _, rfl⟩, hm⟩
+      obtain ⟨q', hq', hc, e⟩ := (mem_oneofMembers ..).mp hm
+      have := inj q' hq' e
+      subst this
+      simp only at hc
+      show fd.oneofIndex.isSome = true
+      rw [hc]; rfl
+    · intro hs
+      obtain ⟨o, ho⟩ := Option.isSome_iff_exists.mp hs
+      exact ⟨_, ⟨o, hwf fd hfd o ho, rfl⟩, (mem_oneofMembers ..).mpr ⟨(i, fd), hq, ho, rfl⟩⟩
+  · simp only [List.mem_filterMap]
+    constructor
+    · rintro ⟨q', hq', hc⟩
+      by_cases hn : q'.2.oneofIndex.isNone = true
+      · simp only [hn, if_true, Option.some.injEq] at hc
+        have := inj q' hq' hc.symm
+        subst this
+        exact hn
+      · simp [hn] at hc
+    · intro hn
+      exact ⟨(i, fd), hq, by simp [hn]⟩
+  · simp only [List.mem_flatten, List.mem_map, List.mem_filter, List.mem_range]
+    constructor
+    · rintro ⟨l, ⟨o, ⟨_, hs⟩, rfl⟩, hm⟩
+      obtain ⟨q', hq', hc, e⟩ := (mem_oneofMembers ..).mp hm
+      have := inj q' hq' e
+      subst this
+      exact ⟨o, hc, hs⟩
+    · rintro ⟨o, ho, hs⟩
+      exact ⟨_, ⟨o, ⟨hwf fd hfd o ho, hs⟩, rfl⟩, (mem_oneofMembers ..).mpr ⟨(i, fd), hq, ho, rfl⟩⟩
 
 end Pgs.AST
